@@ -13,7 +13,13 @@ TINY := -DDISPENSO_TUNE_WAKE_GROUP_SIZE=2 -DDISPENSO_TUNE_STEAL_RING_SHARING=2 -
 
 DISP_SRCS := $(filter-out $(REPO)/dispenso/fast_math/%,$(wildcard $(REPO)/dispenso/*.cpp) $(wildcard $(REPO)/dispenso/detail/*.cpp))
 WL_SRCS := $(wildcard harness/w_*.cpp)
-RT_SRCS := simrt/simrt.cpp simrt/tsan_shim.cpp simrt/san_options.cpp harness/main.cpp
+RT_SRCS := simrt/simrt.cpp simrt/tsan_shim.cpp simrt/san_options.cpp simrt/race.cpp harness/main.cpp
+# free()/realloc() interposer for the race detector: not where a sanitizer runtime owns them
+RTX_sim-default := simrt/race_free.cpp
+RTX_sim-tiny := simrt/race_free.cpp
+RTX_fine-default := simrt/race_free.cpp
+RTX_asan-default :=
+RTX_asan-nosba :=
 
 ASANFLAGS := -fsanitize=address,undefined -fno-sanitize-recover=all -fno-omit-frame-pointer \
              -fsanitize-coverage=trace-pc-guard -fsanitize-coverage-ignorelist=simrt/cov_ignorelist.txt
@@ -46,7 +52,7 @@ $(B)/$(1)/rt/%.o: %.cpp
 	$(CXX) $(COMMON) -MMD -MP -c $$< -o $$@
 OBJS_$(1) := $$(patsubst $(REPO)/dispenso/%.cpp,$(B)/$(1)/disp/%.o,$(DISP_SRCS)) \
              $$(patsubst harness/%.cpp,$(B)/$(1)/wl/%.o,$(WL_SRCS)) \
-             $$(patsubst %.cpp,$(B)/$(1)/rt/%.o,$(RT_SRCS))
+             $$(patsubst %.cpp,$(B)/$(1)/rt/%.o,$(RT_SRCS) $$(RTX_$(1)))
 $(B)/$(1)/simcheck: $$(OBJS_$(1))
 	$(CXX) -rdynamic $$(LINK_$(1)) -o $$@ $$^ -ldl -lpthread
 -include $$(OBJS_$(1):.o=.d)
